@@ -16,6 +16,7 @@ pub const FLOORS: &[&str] = &[
     "two_loop_revisit", "removed_breakpoint_passed", "resume:continue", "resume:step", "resume:si",
     "resume:so", "loc:abs", "loc:label", "loc:pc", "break_before_first", "break_after_last",
     "break_doubled", "nondefault_origin", "trace_invariant_checked", "origin_below_statement_count", "pause_at_break_outside_image",
+    "reset_between_list_change_and_resume",
 ];
 
 struct Loopy {
@@ -60,6 +61,8 @@ fn loopy_alphabet(p: &Loopy) -> Vec<Cmd> {
         Cmd::StepInto(5),
         Cmd::StepOut,
         Cmd::BreakList,
+        // the breakpoint list is the user's: `reset` restores the machine, not the list
+        Cmd::Reset,
     ];
     for (name, idx) in p.labels {
         let addr = p.origin + idx;
@@ -180,6 +183,14 @@ fn observe(out: &mut CaseOut, sess: &crate::dbgmon::Session, cmds: &[Cmd], kind:
     }
     if !removed.is_empty() && sess.obs.trace.iter().any(|(pc, _)| removed.contains(pc)) {
         out.class("removed_breakpoint_passed");
+    }
+    if let Some(ri) = cmds.iter().position(|c| matches!(c, Cmd::Reset)) {
+        // a reset after the list was changed at run time, with execution resumed afterwards
+        let changed_before = cmds[..ri].iter().any(|c| matches!(c, Cmd::BreakAddLoc(_) | Cmd::BreakRemoveLoc(_) | Cmd::BreakAdd(_) | Cmd::BreakRemove(_)));
+        let resumed_after = cmds[ri + 1..].iter().any(|c| c.is_resuming());
+        if changed_before && resumed_after {
+            out.class("reset_between_list_change_and_resume");
+        }
     }
     for (ci, c) in cmds.iter().enumerate() {
         let at_bp = snaps.get(ci).map(|s| s.bps.iter().any(|b| b.0 == s.pc)).unwrap_or(false);
